@@ -79,13 +79,18 @@ def main(chk):
   def tree_vals(ret):
     return None if ret is None else {k: dsl.leaf_repr(v) for k, v in dsl.flatten_vars(ret).items()}
 
-  def tree_mod_prefix(ret):
+  def tree_mod_prefix(ret, by_name=True):
+    """Variable tree up to the auto-generated names: exact paths modulo the transformed-class prefix when every lifted child has an
+    explicit name, otherwise the multiset of (collection, depth, value) - auto-name counters are per (transformed) class."""
     if ret is None:
       return None
     out = {}
+    items = []
     for (col, path), leaf in dsl.flatten_vars(ret).items():
-      out[(col, tuple(strip(p) for p in path))] = dsl.leaf_repr(leaf) if not (col == 'params') else ('param',)
-    return out
+      val = dsl.leaf_repr(leaf) if not (col == 'params') else ('param',)
+      out[(col, tuple(strip(p) for p in path))] = val
+      items.append((col, len(path), path[-1], val))
+    return out if by_name else sorted(items, key=repr)
 
   mc = tlc.require_ok(tlc.run('LinenScope', 'LinenScope_lift_mc.cfg', workers=16, timeout=3000), 'LinenScope lifted MC')
   chk.add_tlc(mc, 'LinenScope MC with lifted children')
@@ -111,6 +116,7 @@ def main(chk):
     body = dr.parse(prog)
     plain_body = dr.parse([dict(op, lift='none') if op['k'] == 'E' else op for op in prog])
     kinds = dr.obs_kinds(body)
+    by_name = all(op['n'] for op in prog if op['k'] == 'E' and op.get('lift', 'none') != 'none')
     psig = ' '.join(op['k'] + ''.join(str(op.get(f, '')) for f in ('c', 'n', 's', 'cl')) + (':' + op['lift'] if op.get('lift', 'none') != 'none' else '')
                     + ('+' if op.get('again') else '') for op in prog)
     key = 'C05:lift:' + psig
@@ -135,9 +141,9 @@ def main(chk):
       nk = [i for i, k in enumerate(kinds) if k not in ('key', 'param')]
       if len(p1['obs']) == len(r1['obs']) and any(not np.array_equal(p1['obs'][i], r1['obs'][i]) for i in nk):
         viol.append('init: lifted and plain runs observe different values')
-      if tree_mod_prefix(p1['ret']) != tree_mod_prefix(r1['ret']):
+      if tree_mod_prefix(p1['ret'], by_name) != tree_mod_prefix(r1['ret'], by_name):
         viol.append(f'init: variable tree of the lifted program differs from the plain one beyond the transformed class names: '
-                    f'{sorted(tree_mod_prefix(r1["ret"]))} vs {sorted(tree_mod_prefix(p1["ret"]))}')
+                    f'{tree_mod_prefix(r1["ret"], by_name)} vs {tree_mod_prefix(p1["ret"], by_name)}')
       # remat / map_variables with explicit names: identical keys as the plain code
       if all(t in ('none', 'remat', 'mapvars') for t in lifted) and all(op['n'] for op in prog if op['k'] == 'E' and op.get('lift', 'none') != 'none'):
         if len(p1['obs']) == len(r1['obs']) and any(not np.array_equal(a, b) for a, b in zip(p1['obs'], r1['obs'])):
@@ -174,7 +180,7 @@ def main(chk):
           nk = [i for i, k in enumerate(kinds) if k not in ('key', 'param')]
           if len(p2['obs']) == len(r2['obs']) and any(not np.array_equal(p2['obs'][i], r2['obs'][i]) for i in nk):
             viol.append(f'{what}: lifted and plain runs observe different values')
-          if tree_mod_prefix(p2['ret']) != tree_mod_prefix(r2['ret']):
+          if tree_mod_prefix(p2['ret'], by_name) != tree_mod_prefix(r2['ret'], by_name):
             viol.append(f'{what}: updated collections differ between lifted and plain program')
         # the same transformed classes again (trace-cache hit): same result
         r2b = run(body, 'apply', variables, cfg['streams'], mutable)
